@@ -76,7 +76,7 @@ example : Rie.Payload.history 4 [] [([1, 2, 3, 4, 5, 6], 2), ([9], 1), ([], 2)] 
 
 example :
     let s := step 0 (step 0 {} (.invoke 0 5 "PAYLOADHASH")) .rtNext
-    s.out = ["ev initRuntimeDone:init:success:-", "ev initReport:init", "ev invokeStart:id#1",
+    s.outs = ["ev initRuntimeDone:init:success:-", "ev initReport:init", "ev invokeStart:id#1",
              "rt.next=200,id#1,body=PAYLOADHASH,arn=ok,ctx=ctx0"] := by decide
 
 end Rie.Props.C01
